@@ -73,6 +73,7 @@ def register(db):
     ))
     register_candidates(db)
     register_test(db)
+    register_type_converter(db)
     db.add(Contract(
         f"{E}.deserialize", variant="not-an-enum",
         params={"self": f"obj:{E}", "value": "str", "data_type": None}, kwargs=KW,
@@ -171,3 +172,27 @@ def register_test(db):
             ensures=ens, raises=({"ConverterError": True} if strict else {}), returns="bool", properties=["C05"],
             note="strict: a ConverterError of the re-serialization is not caught by the function" if strict else "",
         ))
+
+
+def register_type_converter(db):
+    """ConverterFactory.type_converter: the converter registered for the type itself, else the one of the nearest base
+    class along the MRO (object excluded); ConverterError iff neither the type nor any such base is registered."""
+    def factory(mk, base):
+        return mk.obj(F, {"registry": "dict[u:type,u:Converter]"})
+
+    MRO = "data_type.__mro__"
+    IN = "{t} in self.registry"
+    NONE_BEFORE = "forall('int', lambda j: implies(1 <= j and j < {n}, not (" + IN.format(t=f"{MRO}[j]") + ")))"
+    db.add(Contract(
+        f"{F}.type_converter", variant="registry-lookup-along-the-mro",
+        params={"self": factory, "data_type": "opaque:type"}, ghost={"i": "int"},
+        requires=[f"len({MRO}) >= 2"],
+        ensures=[("a-registered-type-gets-its-own-converter", f"implies({IN.format(t='data_type')}, result is self.registry[data_type])"),
+                 ("else-the-converter-of-the-nearest-registered-base",
+                  f"implies(not ({IN.format(t='data_type')}) and 1 <= i and i < len({MRO}) - 1 and {IN.format(t=f'{MRO}[i]')} and " + NONE_BEFORE.format(n="i") +
+                  f", result is self.registry[{MRO}[i]])")],
+        raises={"ConverterError": f"not ({IN.format(t='data_type')}) and " + NONE_BEFORE.format(n=f"len({MRO}) - 1")},
+        loops=[Loop(invariants=[NONE_BEFORE.format(n="_i + 1")], header="data_type.__mro__[1:-1]")],
+        properties=["C05"],
+        note="MRO lookup of the registry (object, the last entry of every MRO, is never consulted)",
+    ))
